@@ -3,6 +3,8 @@ use crate::*;
 pub fn dispatch(v: &Value) -> Value {
     match v["cmd"].as_str().unwrap_or("") {
         "bdd_script" => bdd_script(v),
+        "adf_sem" => adf_sem(v),
+        "adf_tables" => adf_tables(v),
         "features" => json!({
             "adhoccounting": cfg!(feature = "adhoccounting"),
             "adhoccountmodels": cfg!(feature = "adhoccountmodels"),
@@ -13,7 +15,7 @@ pub fn dispatch(v: &Value) -> Value {
     }
 }
 
-fn us(v: &Value) -> usize {
+pub fn us(v: &Value) -> usize {
     if let Some(s) = v.as_str() {
         s.parse::<usize>().unwrap()
     } else {
@@ -58,4 +60,111 @@ pub fn bdd_script(v: &Value) -> Value {
     }
     let tables: Vec<Value> = handles.iter().map(|h| table(&bdd, *h, n)).collect();
     json!({"steps": steps_out, "nodes": dump_nodes(&bdd), "final_tables": tables})
+}
+
+use adf_bdd::adf::heuristics::Heuristic;
+use adf_bdd::adf::Adf;
+use adf_bdd::datatypes::adf::VarContainer;
+use adf_bdd::parser::AdfParser;
+
+fn tabs_of(v: &Value) -> Vec<Vec<u8>> {
+    v.as_array().unwrap().iter().map(|t| t.as_array().unwrap().iter().map(|b| b.as_u64().unwrap() as u8).collect()).collect()
+}
+
+/// the ADF of the harnesses: variables first (as Adf::from_parser does), then Shannon expansion of every table
+pub fn adf_from_tabs(n: usize, tabs: &[Vec<u8>]) -> Adf {
+    let mut bdd = Bdd::new();
+    for v in 0..n {
+        bdd.variable(Var(v));
+    }
+    let acs: Vec<Term> = tabs.iter().map(|t| shannon(&mut bdd, t, n, 0, 0)).collect();
+    Adf::from((VarContainer::default(), bdd, acs))
+}
+
+pub fn classes(v: &[Term]) -> String {
+    v.iter().map(|t| if t.is_truth_value() { if t.is_true() { 'T' } else { 'F' } } else { 'u' }).collect()
+}
+
+fn heuristic_by_name<'a>(name: &str, custom: &'a adf_bdd::adf::heuristics::HeuristicFn) -> Heuristic<'a> {
+    match name {
+        "Simple" => Heuristic::Simple,
+        "MinModMinPathsMaxVarImp" => Heuristic::MinModMinPathsMaxVarImp,
+        "MinModMaxVarImpMinPaths" => Heuristic::MinModMaxVarImpMinPaths,
+        "Rand" => Heuristic::Rand,
+        "Custom" => Heuristic::Custom(custom),
+        _ => panic!("heuristic {}", name),
+    }
+}
+
+pub fn run_proc(adf: &mut Adf, proc_: &str, v: &Value) -> (Vec<Vec<Term>>, bool) {
+    let choices: std::sync::Mutex<std::collections::VecDeque<(usize, bool)>> = std::sync::Mutex::new(
+        v["custom_choices"].as_array().map(|a| a.iter().map(|c| (us(&c[0]), c[1].as_bool().unwrap())).collect()).unwrap_or_default(),
+    );
+    let custom = move |_adf: &Adf, int: &[Term]| -> Option<(Var, Term)> {
+        if let Some((i, b)) = choices.lock().unwrap().pop_front() {
+            return Some((Var(i), Term::from(b)));
+        }
+        int.iter().enumerate().find(|(_, t)| !t.is_truth_value()).map(|(i, _)| (Var(i), Term::TOP))
+    };
+    let mut sender_alive = false;
+    let res: Vec<Vec<Term>> = match proc_ {
+        "grounded" => vec![adf.grounded()],
+        "complete" => adf.complete().collect(),
+        "stable" => adf.stable().collect(),
+        "stable_with_prefilter" => adf.stable_with_prefilter().collect(),
+        "heu_a" => adf.stable_count_optimisation_heu_a().collect(),
+        "heu_b" => adf.stable_count_optimisation_heu_b().collect(),
+        other => {
+            let (kind, heu) = other.split_once(':').expect("proc");
+            let h = heuristic_by_name(heu, &custom);
+            match kind {
+                "nogood" => adf.stable_nogood(h).collect(),
+                "nogood_channel" | "twoval_channel" => {
+                    let (s, r) = crossbeam_channel::unbounded();
+                    let keep = s.clone();
+                    if kind == "nogood_channel" {
+                        adf.stable_nogood_channel(h, s);
+                    } else {
+                        adf.two_val_nogood_channel(h, s);
+                    }
+                    drop(keep);
+                    let out: Vec<Vec<Term>> = r.try_iter().collect();
+                    sender_alive = matches!(r.try_recv(), Err(crossbeam_channel::TryRecvError::Empty));
+                    out
+                }
+                _ => panic!("proc {}", other),
+            }
+        }
+    };
+    (res, sender_alive)
+}
+
+pub fn adf_sem(v: &Value) -> Value {
+    let n = us(&v["n"]);
+    let tabs = tabs_of(&v["tabs"]);
+    let mut adf = adf_from_tabs(n, &tabs);
+    if let Some(sd) = v["seed"].as_u64() {
+        let mut seed = [0u8; 32];
+        seed[..8].copy_from_slice(&sd.to_le_bytes());
+        adf.seed(seed);
+    }
+    let (res, sender_alive) = run_proc(&mut adf, v["proc"].as_str().unwrap(), v);
+    let cls: Vec<String> = res.iter().map(|r| classes(r)).collect();
+    let raw: Vec<Vec<usize>> = res.iter().map(|r| r.iter().map(|t| t.value()).collect()).collect();
+    json!({"result": cls, "raw": raw, "nodes": dump_nodes(&adf.bdd), "sender_alive": sender_alive})
+}
+
+/// parse a text natively and return the truth table of every acceptance condition (small n only)
+pub fn adf_tables(v: &Value) -> Value {
+    let parser = AdfParser::default();
+    if parser.parse()(v["text"].as_str().unwrap()).is_err() {
+        return json!({"error": "parse"});
+    }
+    let adf = Adf::from_parser(&parser);
+    let n = adf.ac.len();
+    if n > 12 {
+        return json!({"error": "too large", "n": n});
+    }
+    let tabs: Vec<Value> = adf.ac.iter().map(|t| table(&adf.bdd, *t, n)).collect();
+    json!({"n": n, "tabs": tabs})
 }
